@@ -630,6 +630,10 @@ def m_object_setattr(I, args, kwargs):
     if isinstance(o, ExcVal):
         o.fields[name] = v
         return None
+    if isinstance(o, SymObj):
+        I.check_slot(o.cls, name)
+        I.st.overlay[(o.t.get_id(), name)] = (o.t, v)
+        return None
     raise OutOfReach('object.__setattr__ on %r' % (o,))
 
 
